@@ -37,7 +37,12 @@ func VerifAge(rl *RateLimitValidator, d time.Duration) {
 	rl.ipLimiters.Range(func(_ string, li *ipLimiterInfo) bool {
 		li.mu.Lock()
 		li.lastAccess = li.lastAccess.Add(-d)
-		li.windowStart = li.windowStart.Add(-d)
+		// the start of the informational per-minute window (X-RateLimit-Remaining), if the entry keeps one as a time stamp:
+		// reached by name so that a refactor of that bookkeeping does not break the hook (admission does not depend on it)
+		if f := reflect.ValueOf(li).Elem().FieldByName("windowStart"); f.IsValid() && f.Type() == reflect.TypeOf(time.Time{}) {
+			p := (*time.Time)(unsafe.Pointer(f.UnsafeAddr()))
+			*p = p.Add(-d)
+		}
 		verifAgeLimiter(li.limiter, d)
 		li.mu.Unlock()
 		return true
